@@ -4,8 +4,7 @@ Streams against the Lean model (lean/Zc/Model/Reply.lean):
   fmt   header id / flags / class field written by the real `DNSOutgoing` for every record kind,
         multicast and unicast, several ids                                              (`c11fmt`)
   send  `can_send_to` on socket family x address spelling                                (`c11send`)
-  tr    trace acceptance of a real `Zeroconf` responder (one or two sockets, IPv4/IPv6 receiving
-        socket) under the virtual-time simulator: every datagram of every block predicted by
+  tr    trace acceptance of a real `Zeroconf` responder (socket layouts 4, 46, 64, 44, 446; any of them receiving) under the virtual-time simulator: every datagram of every block predicted by
         `Host.step` (destination, id, question echo, answer and additional sets)         (`c12run`)
 and the property's sentences evaluated on every datagram the implementation emitted (stage O)."""
 from __future__ import annotations
@@ -145,14 +144,18 @@ class Host2(vsim.Host):
             self.transports.append(tr)
 
 
-def make_host(sim, two):
+def make_host(sim, layout):
+    """layout: one character per socket, '4' = IPv4, '6' = IPv6 (e.g. "44" = two IPv4 interfaces)"""
     from zeroconf import Zeroconf
     import zeroconf._core as core
 
     host = Host2(sim, "A", "10.0.0.1")
-    socks = [vsim.FakeSock(10, ("10.0.0.1", 5353))]
-    if two:
-        socks.append(Sock6(11, ("fe80::1", 5353, 0, 3)))
+    socks = []
+    for i, fam in enumerate(layout):
+        if fam == "4":
+            socks.append(vsim.FakeSock(10 + i, ("10.0.%d.1" % i, 5353)))
+        else:
+            socks.append(Sock6(10 + i, ("fe80::%d" % (i + 1), 5353, 0, 3 + i)))
     for s in socks:
         vsim._sock_host[id(s)] = host
     with mock.patch.object(core, "create_sockets", lambda *a, **k: (None, socks)):
@@ -177,8 +180,8 @@ def run_scenario(seed, sc_no):
     box = {}
 
     async def main(sim):
-        two = rng.random() < 0.45
-        host = make_host(sim, two)
+        layout = rng.choice(["4", "4", "46", "44", "446", "64"])
+        host = make_host(sim, layout)
         zc = host.zc
         await zc.async_wait_for_start()
         infos = R.make_infos(rng, ttl_bias=[1, 2, 4, 5, 8, 120, 120, 4500])
@@ -188,11 +191,12 @@ def run_scenario(seed, sc_no):
             t = await zc.async_register_service(inf)
             await t
         await sim.sleep_ms(rng.choice([1200, 2000, 30000, 1200000]))
-        rx_v6 = two and rng.random() < 0.5
-        rx_tr = host.transports[1] if rx_v6 else host.transports[0]
+        rx_i = rng.randrange(len(layout))
+        rx_v6 = layout[rx_i] == "6"
+        rx_tr = host.transports[rx_i]
         tr = R.Trace(sim, host, uni)
         tr.install()
-        box.update(tr=tr, uni=uni, infos=infos, zc=zc, two=two, rx_v6=rx_v6, lis=rx_tr.protocol, nsocks=len(host.socks), queries=[])
+        box.update(tr=tr, uni=uni, infos=infos, zc=zc, layout=layout, rx_i=rx_i, rx_v6=rx_v6, lis=rx_tr.protocol, nsocks=len(host.socks), queries=[])
         qid = rng.randrange(1, 60000)
         for _ in range(rng.choice([1, 2, 3, 4, 6])):
             await sim.sleep_ms(rng.choice([0, 1, 20, 130, 501, 1001, 1300, 2500, rng.randint(0, 4000)]))
@@ -377,7 +381,7 @@ def run_trace_stream(ctx, res, n, only=None):
     for idx, (seed, sc_no, box, kept) in enumerate(boxes):
         res.evaluations += 1
         tr = box["tr"]
-        case = {"stream": "tr", "seed": seed, "scenario": sc_no, "sockets": box["nsocks"], "receiving_socket": "IPv6" if box["rx_v6"] else "IPv4",
+        case = {"stream": "tr", "seed": seed, "scenario": sc_no, "sockets": box["layout"], "receiving_socket": box["rx_i"],
                 "services": [(i.name, i.server, i.host_ttl, i.other_ttl) for i in box["infos"]],
                 "queries": [dict(t=q["t"] - T0, src=q["src"], data=q["data"].hex()) for q in box["queries"]]}
         if box["errors"]:
@@ -409,7 +413,7 @@ def run_trace_stream(ctx, res, n, only=None):
 def run(ctx):
     res = _Result("C11")
     res.rule = ("fmt: every record kind x class with/without top bit x multicast/unicast x ids {0,1,0xabcd,65535}; send: socket family x 6 address spellings; "
-                "tr: responder scenarios (1..3 services, TTLs 1..4500 s; one IPv4 socket or IPv4+IPv6, queries received on either; 1..6 queries of 1..4 questions, QU/QM per "
+                "tr: responder scenarios (1..3 services, TTLs 1..4500 s; socket layouts {4, 46, 64, 44, 446}, queries received on any one socket; 1..6 queries of 1..4 questions, QU/QM per "
                 "question, +/- authority section, any id, source ports {5353, 40000, 1, 65535, 5354}, cache pokes at ttl/4 -1/0/+1 ms and around 1 s); "
                 "non-trivial = distinct (port class, probe, QU/QM pattern, sockets, receiving family, kinds of datagrams emitted) with at least one reply")
     bt = C.Budget(ctx["tier"], 1500, 30000).n
